@@ -92,10 +92,13 @@ def _three_digit_ring_number(rep):
 
 
 def _three_digit_labels_only_when_full(smiles):
-    """Scan the ring labels of a SMILES string the way its writer meant them: '%' starts a three-digit
-    label exactly when 99 rings are open at that point, else a two-digit one.  True iff at least one
-    three-digit label (>= 100) was read that way."""
-    open_, i, n, seen = set(), 0, len(smiles), False
+    """Scan the ring labels of a SMILES string up to the first '%' that is followed by three or more
+    digits.  Before that point every label is unambiguous ('%dd' or 'd').  True iff 99 rings are open
+    at that point - the numbers 1..99 are all taken, which is the only situation in which the current
+    tree writes a longer number (however many digits it then has: with a thousand rings open it
+    writes '%1000').  A '%ddd' met while fewer rings are open is read as '%dd' followed by a
+    one-digit label, as any reader would."""
+    open_, i, n = set(), 0, len(smiles)
     while i < n:
         c = smiles[i]
         if c == "[":
@@ -105,15 +108,15 @@ def _three_digit_labels_only_when_full(smiles):
             i = j + 1
             continue
         if c == "%":
-            width = 3 if (len(open_) >= 99 and smiles[i + 1:i + 4].isdigit()) else 2
-            lab = smiles[i + 1:i + 1 + width]
-            if len(lab) != width or not lab.isdigit():
+            j = i + 1
+            while j < n and smiles[j].isdigit():
+                j += 1
+            if j - (i + 1) >= 3 and len(open_) >= 99:
+                return True
+            lab = smiles[i + 1:i + 3]
+            if len(lab) != 2 or not lab.isdigit():
                 return False
-            if width == 3:
-                if int(lab) < 100:
-                    return False
-                seen = True
-            i += 1 + width
+            i += 3
         elif c.isdigit():
             lab = c
             i += 1
@@ -125,7 +128,7 @@ def _three_digit_labels_only_when_full(smiles):
             open_.discard(lab)
         else:
             open_.add(lab)
-    return seen
+    return False
 
 
 def peel_ids(known_entry, rep):
